@@ -64,6 +64,7 @@ fn main() {
         "pinfamily" => chess::pin_family(&mut out, &mut rng, n.max(1) as u64),
         "walk" => chess::walks(&mut out, &mut rng, n.max(1) as u64),
         "smallfamily" => chess::small_family(&mut out, n != 0),
+        "sparsefamily" => chess::sparse_family(&mut out, &mut rng, n.max(1)),
         "fen" => {
             let seeds: usize = args.get(3).and_then(|s| s.parse().ok()).unwrap_or(2);
             fen::run(&mut out, &mut rng, n, seeds)
